@@ -309,6 +309,37 @@ func C01(run *mon.Run) {
 		}
 	}
 	run.Require(run.Counter("xp-hunt.hits") > 0, "no point with x+p < 2^381 found")
+	// signatures whose x has its top five bits clear: the header byte carries flags only, so
+	// flag handling that looks at the whole first byte is exercised on an *accepted* point
+	for i := 0; i < run.Pick(2, 12); i++ {
+		k := randScalar(r)
+		sk := skFromInt(k)
+		h := crypto.NewExpandMsgXOFKMAC128("hdr-hunt")
+		for j := 0; j < 600; j++ {
+			msg := []byte(fmt.Sprintf("hdr-hunt-%d-%d", i, j))
+			H, err := hashPoint(msg, h, "kmac:hdr-hunt")
+			if err != nil {
+				break
+			}
+			E := ref.E1.Mul(H, k)
+			enc := ref.EncodeG1(E)
+			if enc[0]&0x1F != 0 {
+				continue
+			}
+			for f := 0; f < 8; f++ {
+				c := append([]byte{}, enc...)
+				c[0] = byte(f << 5)
+				verifyExpect(run, "C01", sk.PublicKey(), cand{b: c, kind: "flags"}, msg, h, bytes.Equal(c, enc), "hdr-hunt")
+			}
+			for bit := 0; bit < 384; bit++ {
+				c := flipBit(enc, bit)
+				verifyExpect(run, "C01", sk.PublicKey(), cand{b: c, kind: "bitflip"}, msg, h, false, "hdr-hunt")
+			}
+			run.Count("hdr-hunt.hits", 1)
+			break
+		}
+	}
+	run.Require(run.Counter("hdr-hunt.hits") > 0, "no signature with a flags-only header byte found")
 	run.Require(run.Counter("triples") >= int64(nTriples*9/10), "fewer triples completed than planned")
 	run.Require(run.Counter("accepted.E") >= run.Counter("triples"), "reference signature accepted fewer times than triples")
 	for _, k := range []string{"bitflip", "neg", "plus-T3", "plus-T11", "plus-cofactor", "plus-g1", "x-plus-p", "flags", "infinity", "infinity-garbage", "length", "random", "other-message", "other-key", "other-tag"} {
